@@ -169,6 +169,19 @@ func runC13(c *ctx) {
 				bs = w.b
 				return e
 			})
+			if entry == "ToBytes" { // the encoder model on the same value: same outcome class (and bytes when accepted)
+				ans := o.String()
+				ord := map[uintptr][]reflect.Value{}
+				if o == oOK {
+					ans = "ok " + hx(bs)
+					if h, err := hparseAll(bs); err == nil {
+						if om, ok := recoverMapOrder(h, cs.v, nm); ok {
+							ord = om
+						}
+					}
+				}
+				c.corr("enc "+nameMapStr(nm)+" "+gvalString(cs.v, ord), ans)
+			}
 			switch o {
 			case oErr:
 				c.dist["rejected"]++
